@@ -34,6 +34,11 @@ CHECKS = {
   "The 12x6x5 matrix is enumerated completely (each cell built and decoded), config globs expanding to 1..20 files and generated mixed lists are added; registration of configuration and special files is compared with the declaration in both directions.",
   "Trusts the harness decoders and the rpm FILEFLAGS constants taken from rpm's rpmfiles.h.",
   "4/C08"),
+ "C05": ("exploration",
+  "runtime monitoring: bounded-exhaustive enumeration of content lists against a set-based reference planner, plus normal-form invariant monitors on every returned plan and 25x repetition for map-order dependence",
+  "Every content list up to the length bound over a universe of overlapping destinations x types x packager tags x targets is prepared by the real files.PrepareForPackager and compared with a reference planner; all destination spellings up to a length bound are checked for the normal form; generated larger lists are compared with the reference plan. exhaustive for the stated bounds (quick: lists <= 2, spellings <= 5; thorough: lists <= 3, spellings <= 6).",
+  "The reference planner encodes the collision rule of the property (same path twice, or an entry beneath a non-directory; an explicit directory may replace an implied one; directories of a tree count as explicit). Beyond the bounds nothing is claimed.",
+  "4/C05"),
  "C09": ("exploration",
   "runtime monitoring: exhaustive enumeration of script-slot subsets per format with unique per-slot tokens; slots decoded from built packages compared byte-for-byte with the files written",
   "All 400 subsets of configurable slots (deb 2^7, rpm 2^7, apk 2^6, archlinux 2^6, ipk 2^4) are built for several body variants (binary, CRLF, no trailing newline, empty, 1 MiB in thorough); a slot must be populated iff configured, with exactly the configured bytes and mode.",
